@@ -51,6 +51,7 @@ func (m ReferenceMap) Extract(source []byte, node Node) {
 	for len(stack) > 0 {
 		curr := stack[len(stack)-1]
 		stack = stack[:len(stack)-1]
+		verifYield("extract-node")
 		block := curr.Block()
 		if block == nil {
 			continue
